@@ -64,6 +64,12 @@ package decor
 //@ typeinv onCompleteMetaWrapper props C07 C02 self.Decorator != nil && self.fn != nil
 //@ typeinv onAbortMetaWrapper props C07 C02 self.Decorator != nil && self.fn != nil
 
+// Unwrap returns the wrapped decorator (non-nil: the wrappers are built only around non-nil
+// decorators - struct invariants above); chains are finite (assumed)
+//@ iface Wrapper.Unwrap
+//@   modifies nothing
+//@   ensures  result != nil
+
 //@ iface Synchronizer.Sync
 //@   modifies nothing
 
